@@ -60,6 +60,7 @@ def _c04():
 
 def _c05():
     return [
+        ("R-PARSE-AGG-INCOMPLETE", "in the aggregate parsers every `incomplete` exit is decided by a sub-parser's own answer, never by an estimate from the announced element count", rules_conn.rule_agg_incomplete),
         ("R-ERRPROP", "an Err from executing a frame never leaves the connection loop except for Connection/Io errors: it is converted into an error reply", rules_conn.rule_errprop),
         ("R-ERRPROP-IO", "no error of the Io/Connection class (which the connection loop takes for a vanished peer) can propagate out of process_normal_command: no `?` on std::io::Error and no Io/Connection construction along the error flow", rules_conn.rule_errprop_io),
         ("R-REPLY1", "each iteration of the frame loop pushes exactly one reply; the loop is not left mid-batch", rules_conn.rule_reply1),
@@ -231,6 +232,7 @@ def _c17():
 
 def _c06():
     return [
+        ("R-RETRY-BUDGET", "a loop on the command thread that sleeps between retries never sets its attempt counter back inside the loop", rules_panic.rule_retry_budget),
         ("R-UTF8-UNCHECKED", "from_utf8_unchecked on the command path never takes bytes that arrive from outside (frames, parameters, read buffers)", rules_panic.rule_utf8_unchecked),
         ("R-PANIC", "client- and wire-controlled numbers reach panicking arithmetic, indexing, float->Duration and clock arithmetic only when bounded on every path (taint with direction-aware dominating comparisons)", rules_panic.make_taint_rule({"client", "wire"}, rules_panic.PANIC_KINDS, "client+wire panic sinks")),
         ("R-ALLOC", "memory is reserved according to a client- or wire-controlled number only when bounded by what was received / is present", rules_panic.make_taint_rule({"client", "wire"}, ("alloc",), "client+wire allocation sinks")),
@@ -312,6 +314,8 @@ def _c19():
 
 def _c20():
     return [
+        ("R-PARSE-AGG-INCOMPLETE", "in the aggregate parsers every `incomplete` exit is decided by a sub-parser's own answer, never by an estimate from the announced element count", rules_conn.rule_agg_incomplete),
+        ("R-CODEC-STDINT", "the parser's integer frames come from the std i64 parser (whole range incl. i64::MIN) and no parser function accumulates decimal digits itself", rules_conn.rule_codec_stdint),
         ("R-PANIC", "declared lengths from the wire reach arithmetic and slicing only when bounded", rules_panic.make_taint_rule({"wire"}, rules_panic.PANIC_KINDS, "wire panic sinks")),
         ("R-ALLOC", "the parser never reserves memory according to a declared length it has not received", rules_panic.make_taint_rule({"wire"}, ("alloc",), "wire allocation sinks")),
         ("R-RECURSE", "nested aggregates are parsed under a depth limit", rules_panic.rule_recurse),
